@@ -1,7 +1,7 @@
 SPECIFICATION MCSpec
 CONSTANTS
   BatchVariant = "code"
-  MaxN = 64
+  MaxN = 128
   EmitN = 128
   EmitFile = "shapes.ndjson"
 INVARIANTS InvBatchEqualsTree InvLeaves InvLength
